@@ -111,6 +111,13 @@ SetPInvalid(kind) ==
   /\ UNCHANGED <<hasF, hasW, wGiven, solved, cWconv, fNs, wNs>>
   /\ Step("SetPInvalid", <<kind>>)
 
+\* rejected setter calls: set_precoders() without F and full_F, set_receive_filters() with both or none of W, W_H
+\* (RuntimeError).  Nothing may change.
+RejectedCall(kind) ==
+  /\ "RejectedCall" \in Acts
+  /\ UNCHANGED <<hasF, hasW, wGiven, pKind, solved, cFullF, cWconv, cFullWH, cFullW, fNs, wNs>>
+  /\ Step("RejectedCall", <<kind>>)
+
 \* the channel object is re-randomized: the stored solution belongs to the old channel until the next Solve
 NewChannel ==
   /\ "NewChannel" \in Acts /\ solved
@@ -165,6 +172,7 @@ Next ==
   \/ \E how \in {"F", "fullF"}, pk \in {"keep", "vector"}, ns \in NsSet : SetPrecoders(how, pk, ns)
   \/ \E w \in {"W", "W_H"}, ns \in NsSet : SetFilters(w, ns)
   \/ \E k \in {"negvec", "zero", "short"} : SetPInvalid(k)
+  \/ \E k \in {"precodersNone", "filtersBoth", "filtersNone"} : RejectedCall(k)
   \/ NewChannel \/ ReadFullF \/ ReadWconv \/ ReadFullWH \/ ReadFullW
 Spec == Init /\ [][Next]_vars
 
